@@ -2,7 +2,7 @@
 import copy
 
 from .. import gen, report, wire
-from .common import viol, h, compact_case
+from .common import viol, h, compact_case, extra_levels
 
 ID = 'C11'
 CLAIM = ('the one-connection-per-host-key-type probe protocol runs against simulated servers whose key rings are built byte-by-byte by an independent encoder: RSA moduli on the '
@@ -18,8 +18,8 @@ NCASES = {'quick': 1200, 'thorough': 12000}
 RULE = ('cases: key ring (RSA size on the 64-bit grid; cert host/CA type and size), host-key list = seeded subset/order of RSA family + other types + certificate types, probe '
         'kex (curve25519 mostly; DH groups and GEX sampled), rendering (text/verbose/JSON); 25% of cases add probe-phase faults. non-trivial: a host-key reply was parsed; distinct '
         'by (key types, RSA size, CA type, CA size, RSA-family subset/order).')
-ASSUMPTIONS = ['RSA sizes are on the 64-bit grid (the quantifier); a certificate signed by an ECDSA P-521 CA is a listed known finding (528 instead of 521)',
-               'size notes are recognised by their text ("using small N-bit ... modulus", the 2048-bit warning)']
+ASSUMPTIONS = ['size notes are the fail/warn notes a report shows beyond the static database entry of the algorithm (wording not judged)', 'RSA sizes are on the 64-bit grid (the quantifier); a certificate signed by an ECDSA P-521 CA is a listed known finding (528 instead of 521)',
+               ]
 
 TWO2K = '2048-bit modulus only provides 112-bits of symmetric strength'
 RSA = list(gen.RSA_FAMILY)
@@ -87,26 +87,28 @@ def sample(case):
     return compact_case(case)
 
 
-def expected_size_notes(facts, is_cert):
-    """The size-related notes the property demands for one presented key (sets of texts)."""
+def expected_size_levels(facts, is_cert):
+    """Levels of the size-related notes the property demands for one presented key (wording is not judged)."""
     want = set()
     b = facts['bits']
     if facts['type'].startswith('ssh-rsa'):
         if b < 2048:
-            want.add(('fail', 'using small %d-bit %smodulus' % (b, 'hostkey ' if is_cert else '')))
+            want.add('fail')
         elif b < 3072:
-            want.add(('warn', TWO2K))
+            want.add('warn')
     if is_cert and facts['ca_type'] == 'ssh-rsa':
         c = facts['ca_bits']
         if c < 2048:
-            want.add(('fail', 'using small %d-bit CA key modulus' % c))
+            want.add('fail')
         elif c < 3072:
-            want.add(('warn', TWO2K))
-    return want
+            want.add('warn')
+    if is_cert and facts['ca_type'].startswith('ecdsa-'):
+        want.add('fail')        # NIST-curve CAs are failed whatever their size
+    return sorted(want)
 
 
-def size_notes(notes):
-    return {(lv, t) for lv, t in notes if (t.startswith('using small') and 'modulus' in t) or t == TWO2K}
+def size_notes(alg, notes):
+    return extra_levels('key', alg, notes) or []
 
 
 def run_case(case, ctx):
@@ -183,12 +185,12 @@ def run_case(case, ctx):
         if facts is None:
             if r['size'] is not None or r['ca_size'] is not None:
                 out.append(viol('C11 size reported for a key the server never presented', 'alg=%s reported=%r faults=%r' % (alg, r, case.get('faults'))))
-            if size_notes(r['notes']):
+            if size_notes(alg, r['notes']):
                 out.append(viol('C11 size note for a key the server never presented', 'alg=%s notes=%r' % (alg, r['notes'])))
             continue
         if not clean and r['size'] is None and r['ca_size'] is None:
             # the probe of this type was made to fail: no size is the documented outcome; then there must be no size note either
-            if size_notes(r['notes']):
+            if size_notes(alg, r['notes']):
                 out.append(viol('C11 size note without a size', 'alg=%s notes=%r' % (alg, r['notes'])))
             continue
         if not is_cert and (r['ca_size'] is not None or r['ca_type'] is not None):
@@ -205,8 +207,8 @@ def run_case(case, ctx):
                 out.append(viol('C11 reported CA size differs from the presented CA key%s' % tagx, 'alg=%s CA %s %d-bit, reported %r' % (alg, facts['ca_type'], facts['ca_bits'], r['ca_size'])))
             if r['ca_type'] != want_ca_type:
                 out.append(viol('C11 reported CA type differs', 'alg=%s CA %s reported %r' % (alg, facts['ca_type'], r['ca_type'])))
-        want = expected_size_notes(facts, is_cert)
-        got = size_notes(r['notes'])
+        want = expected_size_levels(facts, is_cert)
+        got = size_notes(alg, r['notes'])
         if got != want:
             cls = 'RSA' if not is_cert else 'cert'
             b = facts['bits']
